@@ -463,6 +463,13 @@ func (ex *Exec) registerLockStubs() {
 				conflict = fl.typ
 			}
 		}
+		if cmd == 7 { // F_SETLKW: as F_SETLK, but a conflicting lock blocks the caller
+			if typ != 2 && conflict >= 0 {
+				ex.deadlock(st, ex.cur, "F_SETLKW blocks for as long as another process holds a conflicting lock (the foreign connections of the model never release theirs)")
+				return nil
+			}
+			cmd = 6
+		}
 		switch cmd {
 		case 6: // F_SETLK
 			if typ == 2 { // F_UNLCK
